@@ -79,6 +79,17 @@ def r19_2_3(ctx) -> None:
                     if not can_reach_exit(cfg, bad) and not any(L in cfg.reachable(b_) for b_ in bad) and dn is not None and cfg.dominates(L, dn):
                         tests.extend(v for v in vals if v in (b"+", b"/"))
                         loop_form = True
+        # ... or as any(<c> in s for <c> in (b"+", b"/"))
+        for t in cfg.nodes:
+            e_ = t.ast if t.kind == "test" else None
+            if isinstance(e_, ast.Call) and isinstance(e_.func, ast.Name) and e_.func.id == "any" and len(e_.args) == 1 and isinstance(e_.args[0], (ast.GeneratorExp, ast.ListComp)) \
+                    and len(e_.args[0].generators) == 1 and not e_.args[0].generators[0].ifs:
+                g_ = e_.args[0].generators[0]
+                c_ = e_.args[0].elt
+                if isinstance(g_.iter, (ast.Tuple, ast.List)) and isinstance(c_, ast.Compare) and len(c_.ops) == 1 and isinstance(c_.ops[0], ast.In) and norm(c_.left) == norm(g_.target) \
+                        and norm(c_.comparators[0]) == sp and not can_reach_exit(cfg, succ_by_label(cfg, t, "true")) and dn is not None and cfg.dominates(t, dn):
+                    tests.extend(const_value(x) for x in g_.iter.elts if const_value(x) in (b"+", b"/"))
+                    loop_form = True
         ok2 = set(tests) == {b"+", b"/"}
         if ok2 and not loop_form:
             # both rejections precede the decode
@@ -89,7 +100,9 @@ def r19_2_3(ctx) -> None:
         ctx.check(ok2, "R19.2", d, d.node, f"{d.short} :: '+' and '/' refused", "'+' and '/' (the standard alphabet) are not refused before decoding with altchars", "raise if b'+' in s or b'/' in s",
                   construct="standard alphabet refused")
         # padding restored from the length
-        pads = [n for n in fn_nodes(d) if isinstance(n, (ast.AugAssign, ast.Assign)) and "-len(" in norm(n).replace(" ", "") and "%4" in norm(n).replace(" ", "") and "b'='" in norm(n)]
+        from .common import resolve_all as _ra
+        pads = [n for n in fn_nodes(d) if isinstance(n, (ast.AugAssign, ast.Assign)) and any("-len(" in t_.replace(" ", "") and "%4" in t_.replace(" ", "") and "b'='" in t_
+                                                                                         for t_ in _ra(eng, d, n.value))]
         ctx.check(bool(pads), "R19.2", d, d.node, f"{d.short} :: padding", "padding is not restored as '=' * (-len(s) % 4) (impossible lengths must fail in the strict decoder)",
                   "s += b'=' * (-len(s) % 4)", construct="padding restoration")
         # the refusal is a ValueError subclass
